@@ -1235,7 +1235,7 @@ fn late_ack_before(ix: &Index, call_ev: &Ev) -> bool {
 fn must_be_rejected(a: Adv, ix: &Index, ev: usize) -> bool {
     let _ = (ix, ev);
     match a {
-        Adv::WrongTypeAck | Adv::UnknownIdAck | Adv::ReasonCountMismatch | Adv::Auth | Adv::SecondConnack | Adv::UnsolicitedPingresp | Adv::PublishPidZero | Adv::BadAlias | Adv::PubcompBeforePubrel | Adv::ServerDisconnectBeforeConnack | Adv::OversizedPacket => true,
+        Adv::WrongTypeAck | Adv::UnknownIdAck | Adv::ReasonCountMismatch | Adv::Auth | Adv::SecondConnack | Adv::UnsolicitedPingresp | Adv::PublishPidZero | Adv::BadAlias | Adv::PubcompBeforePubrel | Adv::ServerDisconnectBeforeConnack | Adv::OversizedPacket | Adv::ClientOnlyPacket => true,
         // a duplicate of the last ack / random bytes / a truncated packet may happen to be acceptable
         Adv::DuplicateAck | Adv::Garbage | Adv::Truncated | Adv::PubcompGuess => false,
     }
